@@ -401,6 +401,213 @@ func c03Devs(log []mc.Point) string {
 	return strings.Join(parts, ",")
 }
 
+// ---------- wide operands: the parser holds on to a token (an operator, an opening bracket, a
+// method name) while it reads whatever follows; what follows may be arbitrarily long
+type c03WideGen struct {
+	name string
+	mk   func(n int) zn.Expr
+}
+
+func c03WideLeaf(i int) zn.Expr {
+	switch i % 3 {
+	case 0:
+		return zn.Num{Lit: fmt.Sprint(i%7 + 1)}
+	case 1:
+		return zn.Var{Name: "A"}
+	}
+	return zn.Str{Val: "s"}
+}
+
+func c03WideGens() []c03WideGen {
+	items := func(n int) []zn.Expr {
+		var out []zn.Expr
+		for i := 0; i < n; i++ {
+			out = append(out, c03WideLeaf(i))
+		}
+		return out
+	}
+	return []c03WideGen{
+		{"list", func(n int) zn.Expr { return zn.List{Items: items(n)} }},
+		{"call", func(n int) zn.Expr { return zn.Call{Name: "F", Args: items(n)} }},
+		{"new", func(n int) zn.Expr { return zn.New{Class: "T", Args: items(n)} }},
+		{"dict", func(n int) zn.Expr {
+			d := zn.Dict{}
+			for i := 0; i < n; i++ {
+				d.Pairs = append(d.Pairs, zn.DictPair{Key: fmt.Sprintf("K%d", i), Val: c03WideLeaf(i)})
+			}
+			return d
+		}},
+		{"sum", func(n int) zn.Expr {
+			var e zn.Expr = zn.Var{Name: "A"}
+			for i := 0; i < n; i++ {
+				e = zn.Bin{Op: []string{"+", "-"}[i%2], L: e, R: c03WideLeaf(i)}
+			}
+			return e
+		}},
+		{"product-right-nested", func(n int) zn.Expr {
+			var e zn.Expr = zn.Var{Name: "A"}
+			for i := 0; i < n; i++ {
+				e = zn.Bin{Op: []string{"*", "-", "/"}[i%3], L: c03WideLeaf(i), R: e}
+			}
+			return e
+		}},
+		{"nested-list", func(n int) zn.Expr {
+			var e zn.Expr = zn.Num{Lit: "1"}
+			for i := 0; i < n; i++ {
+				e = zn.List{Items: []zn.Expr{e}}
+			}
+			return e
+		}},
+		{"method-chain", func(n int) zn.Expr {
+			m := zn.MCall{Root: zn.Var{Name: "A"}}
+			for i := 0; i < n; i++ {
+				m.Chain = append(m.Chain, zn.Call{Name: "m", Args: []zn.Expr{c03WideLeaf(i)}})
+			}
+			return m
+		}},
+		{"index-chain", func(n int) zn.Expr {
+			var e zn.Expr = zn.Var{Name: "A"}
+			for i := 0; i < n; i++ {
+				if i%2 == 0 {
+					e = zn.Index{Root: e, Idx: zn.Num{Lit: "1"}}
+				} else {
+					e = zn.Member{Root: e, Name: "P"}
+				}
+			}
+			return e
+		}},
+	}
+}
+
+func c03WideWidths(tier string) []int {
+	var ws []int
+	top := 72
+	extra := []int{96, 127, 128, 129, 255, 256, 257, 400}
+	if tier == "thorough" {
+		top = 300
+		extra = []int{511, 512, 513, 1000, 1023, 1024, 1025, 2000}
+	}
+	for n := 1; n <= top; n++ {
+		ws = append(ws, n)
+	}
+	return append(ws, extra...)
+}
+
+// c03WidePrograms: the wide expression in each slot of every form that has one, the other slot a
+// leaf, as an expression statement, a declared value and a branch condition
+func c03WidePrograms(w zn.Expr) []*zn.Program {
+	var ps []*zn.Program
+	body := []zn.Stmt{zn.ExprStmt{E: zn.Var{Name: "B"}}}
+	for _, f := range c03Forms() {
+		for s := 0; s < f.slots; s++ {
+			ch := []zn.Expr{zn.Var{Name: "A"}, zn.Num{Lit: "1"}}
+			ch[s] = w
+			e := f.mk(ch)
+			ps = append(ps, &zn.Program{Body: []zn.Stmt{zn.ExprStmt{E: e}, zn.ExprStmt{E: zn.Var{Name: "C"}}}})
+			if !c03IsAssign(e) {
+				ps = append(ps, &zn.Program{Body: []zn.Stmt{zn.Decl{Pairs: []zn.DeclPair{{Names: []string{"X"}, Val: e}}}}})
+				ps = append(ps, &zn.Program{Body: []zn.Stmt{zn.If{Cond: e, Then: body}, zn.ExprStmt{E: zn.Var{Name: "C"}}}})
+			}
+		}
+	}
+	return ps
+}
+
+// c03WideStmtPrograms: statement-level constructs that hold n parts of one kind (the parser keeps
+// the header of the construct while it reads them)
+func c03WideStmtPrograms(n int) []*zn.Program {
+	es := func(name string) zn.Stmt { return zn.ExprStmt{E: zn.Var{Name: name}} }
+	stmts := func(k int) []zn.Stmt {
+		var out []zn.Stmt
+		for i := 0; i < k; i++ {
+			switch i % 3 {
+			case 0:
+				out = append(out, zn.ExprStmt{E: zn.Call{Name: "F", Args: []zn.Expr{c03WideLeaf(i)}}})
+			case 1:
+				out = append(out, zn.Decl{Pairs: []zn.DeclPair{{Names: []string{fmt.Sprintf("V%d", i)}, Val: c03WideLeaf(i)}}})
+			default:
+				out = append(out, zn.ExprStmt{E: zn.Assign{Target: zn.Var{Name: "X"}, Val: c03WideLeaf(i)}})
+			}
+		}
+		return out
+	}
+	names := func(pre string, k int) []string {
+		var out []string
+		for i := 0; i < k; i++ {
+			out = append(out, fmt.Sprintf("%s%d", pre, i))
+		}
+		return out
+	}
+	var ps []*zn.Program
+	add := func(p *zn.Program) { ps = append(ps, p) }
+	// a long block closed by a dedent into 再如 / 否则 / the next statement
+	add(&zn.Program{Body: []zn.Stmt{zn.If{Cond: zn.Var{Name: "A"}, Then: stmts(n), Elifs: []zn.Elif{{Cond: zn.Var{Name: "B"}, Body: stmts(n)}}, Else: stmts(n), HasElse: true}, es("C")}})
+	add(&zn.Program{Body: []zn.Stmt{zn.While{Cond: zn.Var{Name: "A"}, Body: []zn.Stmt{zn.If{Cond: zn.Var{Name: "B"}, Then: stmts(n)}, es("D")}}, es("C")}})
+	// many 再如 branches
+	{
+		f := zn.If{Cond: zn.Var{Name: "A"}, Then: []zn.Stmt{es("B")}, Else: []zn.Stmt{es("E")}, HasElse: true}
+		for i := 0; i < n; i++ {
+			f.Elifs = append(f.Elifs, zn.Elif{Cond: zn.Bin{Op: "==", L: zn.Var{Name: "A"}, R: zn.Num{Lit: fmt.Sprint(i)}}, Body: []zn.Stmt{es(fmt.Sprintf("B%d", i))}})
+		}
+		add(&zn.Program{Body: []zn.Stmt{f, es("C")}})
+	}
+	// many statements at top level, many names in one declaration, many pairs in one declaration
+	add(&zn.Program{Body: stmts(n)})
+	add(&zn.Program{Body: []zn.Stmt{zn.Decl{Pairs: []zn.DeclPair{{Names: names("N", n), Val: zn.Num{Lit: "1"}}}}, es("C")}})
+	{
+		d := zn.Decl{Block: true}
+		for i := 0; i < n; i++ {
+			d.Pairs = append(d.Pairs, zn.DeclPair{Names: []string{fmt.Sprintf("N%d", i)}, Val: c03WideLeaf(i)})
+		}
+		add(&zn.Program{Body: []zn.Stmt{d, es("C")}})
+	}
+	// many inputs of the program and of a method, a long method body with handlers, many handlers
+	add(&zn.Program{Inputs: names("I", n), Body: []zn.Stmt{es("C")}})
+	add(&zn.Program{Body: []zn.Stmt{zn.Func{Name: "M", Params: names("P", n), Body: stmts(n), Catches: []zn.Catch{{Class: "E", Body: stmts(n)}}}, es("C")}})
+	{
+		f := zn.Func{Name: "M", Body: []zn.Stmt{es("B")}}
+		for i := 0; i < n; i++ {
+			f.Catches = append(f.Catches, zn.Catch{Class: fmt.Sprintf("E%d", i), Body: []zn.Stmt{es(fmt.Sprintf("B%d", i))}})
+		}
+		add(&zn.Program{Body: []zn.Stmt{f, es("C")}})
+	}
+	// many imports, many items of one import
+	{
+		p := &zn.Program{Body: []zn.Stmt{es("C")}}
+		for i := 0; i < n; i++ {
+			p.Imports = append(p.Imports, zn.Import{Name: fmt.Sprintf("m%d", i), Items: names("f", i%3)})
+		}
+		add(p)
+		add(&zn.Program{Imports: []zn.Import{{Name: "m", Items: names("f", n)}}, Body: []zn.Stmt{es("C")}})
+	}
+	// a type with many properties and many methods
+	{
+		cl := zn.Class{Name: "T"}
+		for i := 0; i < n; i++ {
+			cl.Props = append(cl.Props, zn.Prop{Name: fmt.Sprintf("P%d", i), Val: c03WideLeaf(i)})
+			cl.Methods = append(cl.Methods, zn.Func{Name: fmt.Sprintf("M%d", i), Params: names("Q", i%3), Body: []zn.Stmt{es("B")}})
+		}
+		add(&zn.Program{Body: []zn.Stmt{cl, es("C")}})
+	}
+	// exception with many arguments, loop with a long target
+	add(&zn.Program{Body: []zn.Stmt{zn.Throw{Class: "E", Args: func() []zn.Expr {
+		var a []zn.Expr
+		for i := 0; i < n; i++ {
+			a = append(a, c03WideLeaf(i))
+		}
+		return a
+	}()}}})
+	// nesting: n levels of 如果 inside one another, each closed by a statement of its own level
+	if n <= 40 {
+		var inner []zn.Stmt = []zn.Stmt{es("Z")}
+		for i := 0; i < n; i++ {
+			inner = []zn.Stmt{zn.If{Cond: zn.Var{Name: "A"}, Then: inner}, es(fmt.Sprintf("L%d", i))}
+		}
+		add(&zn.Program{Body: inner})
+	}
+	return ps
+}
+
 // c03Layouts explores every layout of prog with <= bound deviations.
 func c03Layouts(c *mc.Ctx, prog *zn.Program, bound int, part string) {
 	want := zn.Show(prog)
@@ -669,6 +876,37 @@ func c03Run(c *mc.Ctx) {
 			}
 		}
 		c.Bound("inserted_lines", fmt.Sprintf("complete: %d line forms x every line boundary of %d programs", len(c03LineForms), len(progs)))
+	}
+	// (g) wide operands: every form with the wide expression in each of its slots
+	{
+		gens := c03WideGens()
+		widths := c03WideWidths(c.Tier)
+		for _, g := range gens {
+			for _, n := range widths {
+				gg, nn := g, n
+				if next(func() json.RawMessage { return mc.J(c03Case{Part: "wide-operands", Source: fmt.Sprintf("%s of width %d in every slot of every form", gg.name, nn)}) }) {
+					for _, p := range c03WidePrograms(g.mk(n)) {
+						c03Layouts(c, p, 0, "wide_operands")
+					}
+				}
+			}
+		}
+		c.Bound("wide_operands", fmt.Sprintf("complete: %d kinds of wide expression x %d widths (1..%d) x every slot of every expression form x 3 statement slots", len(gens), len(widths), widths[len(widths)-1]))
+	}
+	// (h) wide statements: constructs holding n parts of one kind
+	{
+		widths := c03WideWidths(c.Tier)
+		cnt := 0
+		for _, n := range widths {
+			nn := n
+			if next(func() json.RawMessage { return mc.J(c03Case{Part: "wide-statements", Source: fmt.Sprintf("statement constructs with %d parts", nn)}) }) {
+				for _, p := range c03WideStmtPrograms(n) {
+					c03Layouts(c, p, 0, "wide_statements")
+					cnt++
+				}
+			}
+		}
+		c.Bound("wide_statements", fmt.Sprintf("complete: 14 statement constructs with n parts for %d values of n (1..%d)", len(widths), widths[len(widths)-1]))
 	}
 	// (d) deviation bound 2 on a fixed subset (quick: sections with one import)
 	if c.Tier != "thorough" {
